@@ -24,7 +24,7 @@ K_three == {[start |-> 3600, sfx |-> 2], [start |-> 7200, sfx |-> 1], [start |->
 
 SeqsUpTo(S, n) == UNION {[1..k -> S] : k \in 0..n}
 SL_all3   == SeqsUpTo({1, 2, 3}, 3)                     \* 40 lists, repeats included
-SL_small  == {<<>>, <<1>>, <<2>>, <<1, 2>>, <<2, 3>>, <<1, 2, 3>>, <<2, 1>>, <<1, 1>>}
+SL_small  == {<<>>, <<1>>, <<2>>, <<1, 2>>, <<2, 3>>, <<1, 2, 3>>, <<2, 1>>, <<1, 1>>, <<1, 0, 3>>, <<0, 3>>}   \* stop 0: an update that names no stop
 SL_two    == {<<1>>, <<1, 2>>}
 SL_tiny   == {<<1>>, <<1, 2>>, <<2>>}
 SL_line4  == {<<>>, <<1, 2, 3, 4>>, <<2, 3, 4>>, <<3, 4>>, <<4>>, <<2, 3>>, <<2, 5, 4>>, <<3, 4, 6>>, <<1, 2>>, <<3, 2, 3, 4>>}
